@@ -4,7 +4,8 @@
   yash-fnmatch/src/ast/regex.rs on every run, so editing either constant re-checks (and can break)
   `meta_subset`, `escape_roundtrip` and `toRegex_correct`.
 -/
-import YashModel.Fnmatch.ParseSpec
+import YashModel.Fnmatch.ShellLemmas
+import YashModel.Fnmatch.TableLemmas
 
 namespace YashModel.Fnmatch
 open YashModel.Generated.FnmatchTables
@@ -233,6 +234,18 @@ theorem trimArray_correct (pcs : List PatternChar) (hd : astDefined (parseAtoms 
   unfold trimArray
   exact List.map_congr_left (fun v _ => trimApply_correct pcs hd hn side len v)
 
+/-- non-vacuity on pattern characters (the form `trimApply_correct` / `trimArray_correct` quantify over): the
+    pattern text `a*\?` read with escapes meets both hypotheses; `#` removes `ab?`, `##` everything -/
+example :
+    astDefined (parseAtoms (withEscape ['a', '*', '\\', '?'])) = true ∧
+    noMulti (parseAtoms (withEscape ['a', '*', '\\', '?'])) = true ∧
+    trimApply .prefix .shortest (withEscape ['a', '*', '\\', '?']) "ab?x?".toList = "x?".toList ∧
+    trimApply .prefix .longest (withEscape ['a', '*', '\\', '?']) "ab?x?".toList = [] := by
+  have e : parseAtoms (withEscape ['a', '*', '\\', '?']) = [.char 'a', .anyString, .char '?'] := by
+    simp [parseAtoms, withEscape, PatternChar.charValue]
+  simp only [trimApply, Pattern.parse, e]
+  decide
+
 /-- non-vacuity: `[![:digit:]x-z]*[[.-.]]` is defined and has no multi-character element -/
 example :
     let ast : Ast := [.bracket ⟨true, [.atom (.cls "digit".toList), .range (.char 'x') (.char 'z')]⟩, .anyString,
@@ -388,5 +401,165 @@ example : compilesB (List.map PatternChar.literal ['a', '*']) = true := by
   obtain ⟨p, hp, _⟩ := (literal_is_literal ['a', '*'] caseConfig rfl rfl).2
   unfold compilesB
   rw [hp]
+
+/-! ## ★ extension round: every configuration, `literal_period`, the tables, the shell word -/
+
+/-- ★ `Pattern::find` under EVERY configuration (four anchorings × greedy/lazy × `literal_period`, regex path and
+    literal fast path, every syntax tree incl. multi-character elements): what it returns is an occurrence of the
+    pattern (`occurs`: that part of the text is in the glob language and respects the anchors), it starts at the
+    LEFTMOST position at or after the search start where any occurrence starts, and `None` means there is no
+    occurrence at or after the search start.  (`searchStart` = 1 when `literal_period` rejects an initial dot on
+    the regex path, else 0.)  Which end it takes at that start is the matcher's priority order — the shortest /
+    longest one for patterns without multi-character elements (`find_is_extremal`). -/
+theorem find_leftmost (ast : Ast) (cfg : Config) (p : Pattern) (h : Pattern.fromAst ast cfg = .ok p)
+    (s : List Char) :
+    match p.find s with
+    | none => ∀ i j, searchStart ast cfg s ≤ i → ¬ occurs cfg.anchorBegin cfg.anchorEnd ast s i j
+    | some (a, e) => searchStart ast cfg s ≤ a ∧ occurs cfg.anchorBegin cfg.anchorEnd ast s a e ∧
+        ∀ i j, searchStart ast cfg s ≤ i → i < a → ¬ occurs cfg.anchorBegin cfg.anchorEnd ast s i j :=
+  Proofs.find_leftmost ast cfg p h s
+
+/-- ★ `Pattern::rfind` under every configuration: an occurrence that starts at the RIGHTMOST position where any
+    occurrence starts (the byte-wise `while let` loop, with `rfind_step_is_next_char`), `None` iff `find` finds
+    nothing. -/
+theorem rfind_rightmost (ast : Ast) (cfg : Config) (p : Pattern) (h : Pattern.fromAst ast cfg = .ok p)
+    (s : List Char) :
+    match p.rfind s with
+    | none => ∀ i j, searchStart ast cfg s ≤ i → ¬ occurs cfg.anchorBegin cfg.anchorEnd ast s i j
+    | some (a, e) => searchStart ast cfg s ≤ a ∧ occurs cfg.anchorBegin cfg.anchorEnd ast s a e ∧
+        ∀ i j, a < i → ¬ occurs cfg.anchorBegin cfg.anchorEnd ast s i j :=
+  Proofs.rfind_rightmost ast cfg p h s
+
+/-- ★ `Pattern::is_match` under every configuration = the Spec's "some part of the text admitted by the anchors is
+    in the glob language" (`specIsMatchFrom`, the executable form of `∃ i j, occurs …`); `is_match` is
+    `find(..).is_some()` on both paths. -/
+theorem isMatch_any_config (ast : Ast) (cfg : Config) (p : Pattern) (h : Pattern.fromAst ast cfg = .ok p)
+    (s : List Char) :
+    p.isMatch s = specIsMatchFrom cfg.anchorBegin cfg.anchorEnd ast s (searchStart ast cfg s) ∧
+    p.isMatch s = (p.find s).isSome ∧
+    (p.isMatch s = true ↔ ∃ i j, searchStart ast cfg s ≤ i ∧ occurs cfg.anchorBegin cfg.anchorEnd ast s i j) :=
+  ⟨Proofs.isMatch_any_config ast cfg p h s, isMatch_eq_find p s, Proofs.isMatch_iff ast cfg p h s⟩
+
+/-- non-vacuity: `*a` unanchored and lazy (`swap_greed`) on `banana` compiles; `find` gives `0..2` (`ba`: leftmost
+    start, shortest end), `rfind` `5..6`; with `literal_period` `?x` on `.x.x` is searched from index 1: `2..4`. -/
+example :
+    (match Pattern.fromAst [.anyString, .char 'a'] { shortest := true } with
+     | .ok p => some (p.find "banana".toList, p.rfind "banana".toList, p.isMatch "bnn".toList)
+     | .error _ => none) = some (some (0, 2), some (5, 6), false) ∧
+    (match Pattern.fromAst [.anyChar, .char 'x'] { literalPeriod := true } with
+     | .ok p => some (p.find ".x.x".toList)
+     | .error _ => none) = some (some (2, 4)) ∧
+    searchStart [.anyChar, .char 'x'] { literalPeriod := true } ".x.x".toList = 1 := by decide
+
+/-- ★ glob's configuration (both anchors + `literal_period`): `is_match` is POSIX matching with the leading-period
+    rule of XCU 2.13.3 — a leading period of the text is matched only by a period written as the first character of
+    the pattern, never by `?`, `*` or a bracket expression. -/
+theorem literal_period_correct (ast : Ast) (cfg : Config) (hb : cfg.anchorBegin = true)
+    (he : cfg.anchorEnd = true) (hl : cfg.literalPeriod = true) (p : Pattern)
+    (h : Pattern.fromAst ast cfg = .ok p) (s : List Char) :
+    p.isMatch s = specPeriodMatch ast s :=
+  Proofs.literal_period_correct ast cfg hb he hl p h s
+
+/-- non-vacuity: under glob's configuration `*`, `?x`, `[.]x` do not match `.x`, `.*` and the literal `.x` do -/
+example :
+    let cfg : Config := { anchorBegin := true, anchorEnd := true, literalPeriod := true }
+    let dotSet : Atom := .bracket ⟨false, [.atom (.char '.')]⟩
+    ([[Atom.anyString], [.anyChar, .char 'x'], [dotSet, .char 'x'], [.char '.', .anyString],
+      [.char '.', .char 'x']].map fun ast =>
+      match Pattern.fromAst ast cfg with
+      | .ok p => some (p.isMatch ".x".toList)
+      | .error _ => none) = [some false, some false, some false, some true, some true] := by decide
+
+/-- ★ The hand-written tables of the regex-crate model are the tables of the regex-syntax crate the harness links
+    (re-extracted from its source on every run): the characters a backslash may precede
+    (`is_meta_character`), the class names of `ClassAsciiKind::from_name` (same names, same order), and for every
+    class and EVERY character membership by the byte ranges of `hir::translate::ascii_class`. -/
+theorem regex_tables_agree :
+    ((∀ c ∈ escapable, c ∈ Generated.FnmatchRegexSyntax.metaChars) ∧
+     (∀ c ∈ Generated.FnmatchRegexSyntax.metaChars, c ∈ escapable)) ∧
+    Generated.FnmatchRegexSyntax.asciiClasses.map (·.1.toList) = AsciiKind.all.map AsciiKind.name ∧
+    ∀ (k : AsciiKind) (c : Char), k.mem c = inRanges (rangesOfKind k) c :=
+  ⟨Proofs.escapable_agree, Proofs.names_agree, Proofs.kinds_mem_ranges⟩
+
+/-- ★ The constants of /repo the model is built on, re-extracted on every run: `Config` has exactly the five flags
+    (four modelled + `case_insensitive`), `Error` the five classes of `Err`, `from_ast_and_config` sets exactly
+    `dot_matches_new_line(true)`, `swap_greed(shortest_match)`, `case_insensitive(case_insensitive)`; ast/regex.rs
+    writes exactly the fourteen literals the model's `fmt` functions write; `trim::apply` sets for each side / length
+    exactly the flags of `trimConfig`, and `case`'s `config()` exactly those of `caseConfig`; the only files of /repo
+    that use yash-fnmatch are case.rs, trim.rs, glob.rs (C05) and attr_fnmatch.rs, and none of them touches
+    `case_insensitive` (the one flag outside the model — the assumption is re-checked on every run). -/
+theorem config_tables_agree :
+    (Generated.FnmatchConfig.configFields =
+        ["anchor_begin", "anchor_end", "case_insensitive", "literal_period", "shortest_match"] ∧
+      Generated.FnmatchConfig.errorVariants =
+        ["CharClassInRange", "EmptyBracket", "EmptyCollatingSymbol", "RegexError", "UndefinedCharClass"] ∧
+      Generated.FnmatchConfig.regexBuilderFlags =
+        [("case_insensitive", "config.case_insensitive"), ("dot_matches_new_line", "true"),
+         ("swap_greed", "config.shortest_match")] ∧
+      Generated.FnmatchConfig.emittedLiterals =
+        ["(?:", ")", "-", ".", ".*", "[", "[^", "\\", "\\A", "\\z", "]", "^", "fmt:[:{class}:]", "|"]) ∧
+    (∀ side len, trimConfig side len = cfgOfFlags (sideFlags side ++ lengthFlags len) ∧
+      ∀ f ∈ sideFlags side ++ lengthFlags len, f ∈ modelledFlags) ∧
+    (caseConfig = cfgOfFlags Generated.FnmatchConfig.caseConfigFlags ∧
+      ∀ f ∈ Generated.FnmatchConfig.caseConfigFlags, f ∈ modelledFlags) ∧
+    (Generated.FnmatchConfig.fnmatchCallers =
+        ["yash-semantics/src/command/compound_command/case.rs", "yash-semantics/src/expansion/attr_fnmatch.rs",
+         "yash-semantics/src/expansion/glob.rs", "yash-semantics/src/expansion/initial/param/trim.rs"] ∧
+      Generated.FnmatchConfig.caseInsensitiveUsers = []) :=
+  ⟨Proofs.config_tables, Proofs.trimConfig_table, Proofs.caseConfig_table, Proofs.callers_table⟩
+
+/-- ★ The Spec's meaning of `[:name:]` is the POSIX locale's: for each of the twelve class names of XBD 9.3.5 a
+    bracket member `[:name:]` contains exactly the characters the POSIX locale definition (XBD 7.3.1) lists for
+    that class — for every character, not only ASCII — and such a class is inside the defined notation.  (The
+    range tables `AsciiKind.mem` are therefore no longer a shared assumption of model and Spec.) -/
+theorem posix_classes_agree (name members : List Char) (h : posixClass name = some members) (c : Char) :
+    atomHas (.cls name) c = decide (c ∈ members) ∧ atomDefined (.cls name) = true := by
+  obtain ⟨k, hk, hm⟩ := Proofs.posix_class_mem name members h
+  simp only [atomHas, atomDefined, hk, hm c]
+  exact ⟨trivial, rfl⟩
+
+/-- non-vacuity: `punct` is one of the twelve, with the 32 characters of the POSIX locale -/
+example : posixClass "punct".toList = some posixPunct ∧ posixPunct.length = 32 := by decide
+
+/-- ★ The pattern characters of the shell word `"$q"$p` (`apply_escapes` then `to_pattern_chars` on what
+    `expand_word_attr` yields): every character of the quoted part is a `Literal`, the quotation marks vanish, and
+    in the unquoted part a backslash makes the next character a `Literal` (a last lone backslash stays itself). -/
+theorem shell_word_chars (q p : List Char) :
+    toPatternChars (applyEscapes (shellWord q p)) = q.map .literal ++ escapeChars p :=
+  Proofs.shell_word_chars q p
+
+/-- ★ "quoted characters match only themselves" at the level of the shell: the `case` pattern `"$q"` — whatever
+    characters `q` consists of — compiles and matches exactly the subject `q`; so does the trim pattern. -/
+theorem quoted_word_matches_only_itself (q : List Char) :
+    (∀ subj, itemMatches subj [toPatternChars (applyEscapes (shellWord q []))] = decide (subj = q)) ∧
+    (∃ pat, Pattern.parse (toPatternChars (applyEscapes (shellWord q []))) caseConfig = .ok pat ∧
+      ∀ s, pat.isMatch s = decide (s = q)) := by
+  have e : toPatternChars (applyEscapes (shellWord q [])) = q.map .literal := by
+    rw [shell_word_chars]; simp [escapeChars]
+  rw [e]
+  obtain ⟨pat, hp, hm⟩ := (literal_is_literal q caseConfig rfl rfl).2
+  refine ⟨?_, pat, hp, hm⟩
+  intro subj
+  simp only [itemMatches, hp, hm subj]
+  cases decide (subj = q) <;> rfl
+
+/-- ★ `Ast::to_literal` / `is_literal` (the switch to the literal fast path, and what `glob` asks): a pattern is a
+    literal exactly when all its atoms are ordinary characters, and the literal is those characters. -/
+theorem toLiteral_spec (ast : Ast) (l : List Char) : toLiteral ast = some l ↔ ast = l.map Atom.char :=
+  Proofs.toLiteral_spec ast l
+
+/-- ★ The scan of `parse_inner` that model and Spec grammar share, characterised without recursion: the value of
+    `[.`…`.]` / `[=`…`=]` / `[:`…`:]` ends at the FIRST adjacent pair of an unquoted `d` and an unquoted `]` (quoted
+    ones do not count), and there is no value when there is no such pair. -/
+theorem scanClose_first (d : Char) (cs v r : List PatternChar) :
+    (scanClose d cs = some (v, r) ↔
+      (cs = v ++ .normal d :: .normal ']' :: r ∧
+       ∀ v' r', cs = v' ++ .normal d :: .normal ']' :: r' → v.length ≤ v'.length)) ∧
+    (scanClose d cs = none ↔ ¬ ∃ v' r', cs = v' ++ .normal d :: .normal ']' :: r') :=
+  ⟨Proofs.scanClose_spec d cs v r, Proofs.scanClose_none d cs⟩
+
+/-- non-vacuity: in `a\.].]x` the quoted `.` does not end the value: value `a.]`, rest `x` -/
+example : scanClose '.' [.normal 'a', .literal '.', .normal ']', .normal '.', .normal ']', .normal 'x']
+    = some ([.normal 'a', .literal '.', .normal ']'], [.normal 'x']) := by decide
 
 end YashModel.Fnmatch
